@@ -20,7 +20,9 @@ import (
 	"flag"
 	"fmt"
 	"os"
+	"regexp"
 	"runtime"
+	"sort"
 	"strconv"
 	"strings"
 	"sync"
@@ -38,6 +40,7 @@ type Op struct {
 	Query string `json:"query"`
 	Vars  string `json:"vars"`
 	Name  string `json:"name"`
+	Multi bool   `json:"multi"` // build the gateway with EnableMultiFetch
 }
 
 type Case struct {
@@ -77,6 +80,13 @@ type FetchDesc struct {
 	Subgraph string `json:"subgraph"`
 	Path     string `json:"path"`
 	Deps     []int  `json:"deps"`
+	// MultiEntityFetch: the merged original fetches (alias of their _entities field, response path)
+	Entries []EntryDesc `json:"entries,omitempty"`
+}
+
+type EntryDesc struct {
+	Alias string `json:"alias"`
+	Path  string `json:"path"`
 }
 
 type Tree struct {
@@ -199,6 +209,15 @@ func exportTree(env *fedenv.Env, n *resolve.FetchTreeNode, fetches *[]FetchDesc)
 		default:
 			d.Kind = "Multi"
 		}
+		if m, ok := f.(*resolve.MultiEntityFetch); ok {
+			for _, e := range m.Input.Entries {
+				ed := EntryDesc{Alias: e.Alias}
+				if e.Item != nil {
+					ed.Path = e.Item.ResponsePath
+				}
+				d.Entries = append(d.Entries, ed)
+			}
+		}
 		if info := f.FetchInfo(); info != nil {
 			d.DS = info.DataSourceID
 			d.Subgraph = env.SubgraphNameByID(info.DataSourceID)
@@ -289,6 +308,72 @@ func shapeOf(schema *gast.Schema, op Op) (*Shape, error) {
 	return s, nil
 }
 
+// alias of the _entities fields of a MultiEntityFetch request
+var multiAliasRe = regexp.MustCompile(`^f[0-9]+$`)
+
+// partialData turns a genuine subgraph answer into a partial one: the last element of every _entities array (plain
+// or aliased) resp. the last root field of data becomes null and an errors entry with its path is added.
+func partialData(status int, body []byte) (int, []byte) {
+	var doc map[string]json.RawMessage
+	if json.Unmarshal(body, &doc) != nil {
+		return status, body
+	}
+	dec := json.NewDecoder(bytes.NewReader(doc["data"]))
+	tok, err := dec.Token()
+	if err != nil || tok != json.Delim('{') {
+		return status, body
+	}
+	// keep the member order of data
+	type kv struct {
+		k string
+		v json.RawMessage
+	}
+	var members []kv
+	for dec.More() {
+		kt, err := dec.Token()
+		if err != nil {
+			return status, body
+		}
+		var v json.RawMessage
+		if dec.Decode(&v) != nil {
+			return status, body
+		}
+		members = append(members, kv{kt.(string), v})
+	}
+	if len(members) == 0 {
+		return status, body
+	}
+	var errs []string
+	entity := false
+	for i := range members {
+		var arr []json.RawMessage
+		if (members[i].k == "_entities" || multiAliasRe.MatchString(members[i].k)) && json.Unmarshal(members[i].v, &arr) == nil && len(arr) > 0 && bytes.HasPrefix(bytes.TrimSpace(members[i].v), []byte("[")) {
+			entity = true
+			arr[len(arr)-1] = json.RawMessage("null")
+			members[i].v, _ = json.Marshal(arr)
+			errs = append(errs, fmt.Sprintf(`{"message":"faults: injected partial failure","path":[%q,%d]}`, members[i].k, len(arr)-1))
+		}
+	}
+	if !entity {
+		last := len(members) - 1
+		members[last].v = json.RawMessage("null")
+		errs = append(errs, fmt.Sprintf(`{"message":"faults: injected partial failure","path":[%q]}`, members[last].k))
+	}
+	var buf bytes.Buffer
+	buf.WriteString(`{"errors":[` + strings.Join(errs, ",") + `],"data":{`)
+	for i, m := range members {
+		if i > 0 {
+			buf.WriteByte(',')
+		}
+		kb, _ := json.Marshal(m.k)
+		buf.Write(kb)
+		buf.WriteByte(':')
+		buf.Write(m.v)
+	}
+	buf.WriteString("}}")
+	return status, buf.Bytes()
+}
+
 // ---- one execution
 
 func execute(op Op, c *Case, withPlan bool, schema *gast.Schema) Out {
@@ -300,10 +385,21 @@ func execute(op Op, c *Case, withPlan bool, schema *gast.Schema) Out {
 	}
 	rec := newRecorder()
 	faults := map[int]fedenv.Fault{}
+	rewrites := map[int]func(int, []byte) (int, []byte){}
 	var order []int
 	if c != nil {
 		for k, v := range c.Faults {
 			id, err := strconv.Atoi(k)
+			if err == nil && v == "Non2xxJSON" {
+				// 503 with the genuine, valid GraphQL body
+				rewrites[id] = func(_ int, body []byte) (int, []byte) { return 503, body }
+				continue
+			}
+			if err == nil && v == "PartialData" {
+				// 200 with data + errors: one part of the genuine data is nulled and reported
+				rewrites[id] = partialData
+				continue
+			}
 			f, ok := fedenv.ParseFault(v)
 			if err != nil || !ok {
 				out.Err = "bad fault spec " + k + ":" + v
@@ -320,6 +416,7 @@ func execute(op Op, c *Case, withPlan bool, schema *gast.Schema) Out {
 	var xmu sync.Mutex
 	xfetch := map[int]int{} // exchange seq -> fetch id
 	env, err := fedenv.New(fedenv.Options{
+		EnableMultiFetch: op.Multi,
 		Interceptor: func(x *fedenv.Exchange) fedenv.Action {
 			rec.mu.Lock()
 			fid, ok := rec.byGoid[goid()]
@@ -359,7 +456,7 @@ func execute(op Op, c *Case, withPlan bool, schema *gast.Schema) Out {
 			xmu.Lock()
 			xfetch[x.Seq] = fid
 			xmu.Unlock()
-			return fedenv.Action{Fault: faults[fid]}
+			return fedenv.Action{Fault: faults[fid], Rewrite: rewrites[fid]}
 		},
 	})
 	if err != nil {
@@ -429,16 +526,31 @@ func execute(op Op, c *Case, withPlan bool, schema *gast.Schema) Out {
 			Status: x.Status, Response: x.ResponseText, Err: x.Err, Cancelled: x.Cancelled, Reps: []string{}}
 		var vars map[string]json.RawMessage
 		if len(x.Variables) > 0 && json.Unmarshal(x.Variables, &vars) == nil {
-			if _, has := vars["representations"]; has {
-				xo.IsEntity = true
+			// plain entity fetch: "representations"; MultiEntityFetch: "representations_f<N>" per merged fetch
+			keys := make([]string, 0, len(vars))
+			for k := range vars {
+				if strings.HasPrefix(k, "representations") {
+					keys = append(keys, k)
+				}
 			}
-		}
-		for _, rp := range x.Representations {
-			var buf bytes.Buffer
-			if json.Compact(&buf, rp) == nil {
-				xo.Reps = append(xo.Reps, buf.String())
-			} else {
-				xo.Reps = append(xo.Reps, string(rp))
+			sort.Strings(keys)
+			for _, k := range keys {
+				xo.IsEntity = true
+				var arr []json.RawMessage
+				if json.Unmarshal(vars[k], &arr) != nil {
+					continue
+				}
+				for _, rp := range arr {
+					var buf bytes.Buffer
+					txt := string(rp)
+					if json.Compact(&buf, rp) == nil {
+						txt = buf.String()
+					}
+					if k != "representations" {
+						txt = k + ":" + txt
+					}
+					xo.Reps = append(xo.Reps, txt)
+				}
 			}
 		}
 		out.Exchanges = append(out.Exchanges, xo)
